@@ -4,7 +4,7 @@ import itertools
 import numpy as np
 import pandas as pd
 
-from .. import common
+from .. import common, checklib
 from ..rtc import par
 from .C08 import observe, compare
 
@@ -149,7 +149,13 @@ def _chunk(task):
     return res
 
 
+def PROOFS():
+    from ..contracts import design_c
+    return [("vf.contracts.design_c", design_c.FUNCTIONS)]
+
+
 def run(report, findings):
+    checklib.run_proofs(report, "C09", PROOFS())
     seeds = [common.seed()] if report.tier == "quick" else [common.seed() + i for i in range(6)]
     evals = ok = bad = 0
     for sd in seeds:
